@@ -32,7 +32,7 @@ pub fn def_id_str(tcx: TyCtxt<'_>, did: DefId) -> String {
 }
 
 pub fn path_str(tcx: TyCtxt<'_>, did: DefId) -> String {
-    rustc_middle::ty::print::with_no_trimmed_paths!(tcx.def_path_str(did))
+    rustc_middle::ty::print::with_no_visible_paths!(rustc_middle::ty::print::with_no_trimmed_paths!(tcx.def_path_str(did)))
 }
 
 pub fn crate_of(tcx: TyCtxt<'_>, did: DefId) -> String {
